@@ -214,7 +214,12 @@ func (g *Gen) fill(kind string, p *Program) Op {
 			verb = int64("dsxq"[g.R.N(4)])
 		}
 		op.B = []string{hx([]byte(in))}
-		op.I = []int64{verb, errAt, g.slot(nRecv), int64(g.R.N(6))}
+		op.I = []int64{verb, errAt, g.slot(nRecv), int64(g.R.N(6)), 0}
+		if g.R.P(1, 3) {
+			// a peer that evaluates the predicate of Token more than once per
+			// rune and/or can push back more than one rune
+			op.I[4] = int64(g.R.N(8))
+		}
 	case "TextRT":
 		op.D = []string{d()}
 		op.I = []int64{int64(g.R.N(len(textProducers))), int64(g.R.N(len(textConsumers)))}
